@@ -671,6 +671,57 @@ pub assume_specification [String::len] (s: &String) -> (ret: usize)
 pub assume_specification<T> [Option::<T>::or] (a: Option<T>, b: Option<T>) -> (ret: Option<T>)
     ensures ret == (if a.is_some() { a } else { b });
 
+// ------------------------------------------------------------------ num_traits::PrimInt as used by the u64/u128 comparison fast path
+/// Only what compare_scaled_uints<T> touches.  Implemented (assumed) for u64 and u128.
+pub trait NtPrimInt: Sized + Copy + Ord {
+    spec fn nt_val(&self) -> int;
+    spec fn nt_max() -> int;
+    /// every value is within the range of the type
+    proof fn nt_range(&self) ensures 0 <= self.nt_val() <= Self::nt_max();
+    /// Ord::cmp on T is the comparison of the values
+    proof fn nt_cmp_is_value_cmp(a: &Self, b: &Self)
+        ensures Self::obeys_cmp_spec(), a.cmp_spec(b) == ord_of(a.nt_val(), b.nt_val());
+    /// num_traits::NumCast::from, called with a small literal
+    fn from(n: i32) -> (ret: Option<Self>)
+        ensures 0 <= n <= 127 ==> ret.is_some() && ret.unwrap().nt_val() == n;
+    /// num_traits::CheckedMul
+    fn checked_mul(&self, v: &Self) -> (ret: Option<Self>)
+        ensures ret.is_some() <==> self.nt_val() * v.nt_val() <= Self::nt_max(),
+                ret.is_some() ==> ret.unwrap().nt_val() == self.nt_val() * v.nt_val();
+}
+/// num_traits::checked_pow
+#[verifier::external_body]
+pub fn nt_checked_pow<T: NtPrimInt>(base: T, exp: usize) -> (ret: Option<T>)
+    ensures ret.is_some() <==> vstd::arithmetic::power::pow(base.nt_val(), exp as nat) <= T::nt_max(),
+            ret.is_some() ==> ret.unwrap().nt_val() == vstd::arithmetic::power::pow(base.nt_val(), exp as nat)
+{ unimplemented!() }
+macro_rules! nt_prim_int {
+    ($t:ty) => { verus! {
+        impl NtPrimInt for $t {
+            open spec fn nt_val(&self) -> int { *self as int }
+            open spec fn nt_max() -> int { <$t>::MAX as int }
+            proof fn nt_range(&self) {}
+            proof fn nt_cmp_is_value_cmp(a: &Self, b: &Self) {}
+            #[verifier::external_body] fn from(n: i32) -> (ret: Option<Self>) { unimplemented!() }
+            #[verifier::external_body] fn checked_mul(&self, v: &Self) -> (ret: Option<Self>) { unimplemented!() }
+        }
+        /// num-bigint: TryFrom<&BigUint> for the primitive: Ok iff the value fits
+        impl<'a> vstd::std_specs::convert::TryFromSpecImpl<&'a BigUint> for $t {
+            open spec fn obeys_try_from_spec() -> bool { true }
+            open spec fn try_from_spec(v: &'a BigUint) -> Result<Self, Self::Error> {
+                if v@ <= <$t>::MAX { Ok(v@ as $t) } else { Err(TryFromBigIntError { _p: () }) }
+            }
+        }
+        impl<'a> TryFrom<&'a BigUint> for $t {
+            type Error = TryFromBigIntError;
+            #[verifier::external_body] fn try_from(v: &'a BigUint) -> (ret: Result<Self, Self::Error>) { unimplemented!() }
+        }
+    } };
+}
+pub struct TryFromBigIntError { pub _p: () }
+nt_prim_int!(u64);
+nt_prim_int!(u128);
+
 // ------------------------------------------------------------------ IEEE-754 (axiom A3: to_bits / classify layout)
 #[verifier::external_type_specification]
 pub struct ExFpCategory(core::num::FpCategory);
@@ -717,6 +768,9 @@ pub assume_specification<T, U> [Option::<T>::zip] (a: Option<T>, b: Option<U>) -
     ensures ret == (if a.is_some() && b.is_some() { Some((a.unwrap(), b.unwrap())) } else { None::<(T, U)> });
 
 
+pub assume_specification<T, F: FnOnce() -> Option<T>> [Option::<T>::or_else] (o: Option<T>, f: F) -> (ret: Option<T>)
+    requires o.is_none() ==> f.requires(())
+    ensures o.is_some() ==> ret == o, o.is_none() ==> f.ensures((), ret);
 pub assume_specification<T, F: FnOnce(T) -> bool> [Option::<T>::is_some_and] (o: Option<T>, f: F) -> (ret: bool)
     requires o.is_some() ==> f.requires((o.unwrap(),))
     ensures o.is_none() ==> !ret, o.is_some() ==> f.ensures((o.unwrap(),), ret);
